@@ -130,8 +130,22 @@ func (e *c11) genString(enc string) []uint16 {
 		}
 	case strings.HasPrefix(strings.ToLower(enc), "base64") && r.Chance(85):
 		n := r.Intn(8)
+		// line breaks are ignored wherever they stand: long runs of them in front of and between the characters push
+		// the characters that matter far beyond any estimate computed from the byte count
+		if r.Chance(15) {
+			for k := r.Intn(30); k >= 0; k-- {
+				sb.WriteString([]string{"\r\n", "\n", "\r\n\r\n"}[r.Intn(3)])
+			}
+			e.st.Hit("b64:leading-breaks")
+		}
+		between := r.Chance(12)
 		for i := 0; i < n; i++ {
 			sb.WriteString(b64Pieces[r.Intn(len(b64Pieces))])
+			if between {
+				for k := r.Intn(6); k > 0; k-- {
+					sb.WriteString("\r\n")
+				}
+			}
 		}
 	default:
 		// text: BMP, astral, and lone surrogates
